@@ -115,6 +115,45 @@ func lattice(e *simEnv, p *refmatch.Probe, l *latticeCtx, other otherIdentities,
 		gen.FixIPv4Checksum(q, "fix")
 		emit(gen.WrapError(l.next(false), e.local, gen.TimeExceeded, 0, q, "full", nil, 0), "qhdr-options", "l4-in-options")
 	}
+	if !v.V6 && len(base) >= 28 {
+		// cross-family: an ICMPv6 time-exceeded whose outer and quoted IPv6 headers spell this run's IPv4 addresses
+		// as IPv4-mapped IPv6 (::ffff:a.b.c.d) and quote the probe's own transport header. An IPv6 packet cannot
+		// answer an IPv4 probe; a parser that un-maps addresses would see the probe's own flow.
+		m := func(a netip.Addr) netip.Addr { return netip.AddrFrom16(a.As16()) }
+		l4 := append([]byte(nil), base[20:]...)
+		nh := base[9]
+		if nh == wirefmt.ProtoICMP {
+			nh = wirefmt.ProtoICMPv6
+			l4[0] = 128
+		}
+		pl := p.IPID // the UDP-over-IPv6 scheme identifies a probe by the quoted payload length
+		for _, plen := range []*uint16{&pl, nil} {
+			q6 := wirefmt.IPv6{NextHeader: nh, HopLimit: 1, Src: m(e.local), Dst: m(e.spec.Target), PayloadLen: plen}.Marshal(l4)
+			from := m(l.next(false))
+			msg := wirefmt.ICMPv6(from, m(e.local), 3, 0, [4]byte{}, q6)
+			cl := "v4mapped-icmpv6"
+			if plen != nil {
+				cl = "v4mapped-icmpv6-plen=ipid"
+			}
+			emit(wirefmt.IPv6{NextHeader: wirefmt.ProtoICMPv6, HopLimit: 250, Src: from, Dst: m(e.local)}.Marshal(msg), "xfamily", cl)
+		}
+	}
+	{
+		// runts: a frame that ends right after its IP header although the header announces a full reply. Whatever
+		// the capture buffer held before must not be parsed as this frame's body (the reply just read was genuine).
+		from := l.next(v.V6)
+		if v.V6 {
+			plen := uint16(8 + len(base))
+			emit(wirefmt.IPv6{NextHeader: wirefmt.ProtoICMPv6, HopLimit: 250, Src: from, Dst: e.local, PayloadLen: &plen}.Marshal(nil), "runt", "iphdr-only/icmp")
+		} else {
+			full := gen.WrapError(from, e.local, gen.TimeExceeded, 0, base, "min", nil, 0)
+			emit(append([]byte(nil), full[:20]...), "runt", "iphdr-only/icmp")
+			if v.Proto == "syn" || v.Proto == "sack" {
+				fullT := gen.TCPReply(from, e.local, e.spec.Port, e.lport, 1, p.Seq+1, wirefmt.TCPSyn|wirefmt.TCPAck, nil, nil, nil)
+				emit(append([]byte(nil), fullT[:20]...), "runt", "iphdr-only/tcp")
+			}
+		}
+	}
 	// direct replies
 	tgt := e.spec.Target
 	switch v.Proto {
@@ -163,6 +202,29 @@ func lattice(e *simEnv, p *refmatch.Probe, l *latticeCtx, other otherIdentities,
 	}
 	// unrelated traffic
 	emit(udpFrame(l.next(v.V6), e.local, 53, 40000, v.V6), "noise", "dns")
+}
+
+// runtBehind schedules header-only frames (IP header announcing a full ICMP / TCP reply, nothing behind it) from a
+// foreign address immediately after the genuine reply to p.
+func runtBehind(e *simEnv, p *refmatch.Probe, l *latticeCtx, after time.Duration) {
+	v := e.spec.V
+	from := l.next(v.V6)
+	base := gen.QuoteBytes(p, 1, "fix")
+	emit := func(b []byte, class string) {
+		e.inject(b, "perturbed:runt:"+class, p, oddUS(after+4*time.Microsecond))
+		l.fields["runt:"+class] = true
+	}
+	if v.V6 {
+		plen := uint16(8 + len(base))
+		emit(wirefmt.IPv6{NextHeader: wirefmt.ProtoICMPv6, HopLimit: 250, Src: from, Dst: e.local, PayloadLen: &plen}.Marshal(nil), "behind-genuine/icmp")
+		return
+	}
+	full := gen.WrapError(from, e.local, gen.TimeExceeded, 0, base, "min", nil, 0)
+	emit(append([]byte(nil), full[:20]...), "behind-genuine/icmp")
+	if v.Proto == "syn" || v.Proto == "sack" {
+		fullT := gen.TCPReply(from, e.local, e.spec.Port, e.lport, 1, p.Seq+1, wirefmt.TCPSyn|wirefmt.TCPAck, nil, nil, nil)
+		emit(append([]byte(nil), fullT[:20]...), "behind-genuine/tcp")
+	}
 }
 
 func maskW(w int) uint64 {
@@ -253,6 +315,13 @@ func runC01Case(c *fw.Ctx, id string, v refmatch.Variant, w window, b base, full
 				m := baselinePath(e, w, c.Rng)
 				m.extra = func(e *simEnv, p *refmatch.Probe) {
 					lattice(e, p, l, other, c.Rng, full)
+					// a runt from a foreign host right behind the genuine reply to this probe: the capture buffer still
+					// holds that reply when the runt is read
+					if hs := m.hops[p.TTL]; hs != nil && !hs.silent {
+						runtBehind(e, p, l, hs.delay)
+					} else if m.dist == p.TTL {
+						runtBehind(e, p, l, m.destDelay)
+					}
 					if round == 1 {
 						for i, sb := range stale {
 							if i%int(e.spec.MaxTTL-e.spec.MinTTL+1) == (p.TTL-int(e.spec.MinTTL)) && len(sb) > 0 {
